@@ -16,6 +16,7 @@ RULE = ("generated refinement trees (3..48 points, uniform / one-sided / graded 
         "non-negative, independent of the level assignment, linear functions exact; higher-order rules: degree<=1 exact on every "
         "tree, degree<=p exact on trees with the complete level ceil(log2(p+1)). distinct = digest(grid, level sequences); "
         "non-trivial = non-uniform tree")
+RULE += (" The observed set_grid is preceded by 0..2 other trees set (and half of the time integrated) on the SAME grid object.")
 REQUIRED = ["trapezoid_weights", "trapezoid_nonnegative", "trapezoid_level_independent", "trapezoid_linear_exact", "modified_weights",
             "modified_linear_exact", "highorder_linear_exact", "lagrange_linear_exact", "lagrange_degree_p_exact",
             "bspline_linear_exact", "bspline_degree_p_exact"]
@@ -72,6 +73,25 @@ def run_case(case, res):
     vol = float(np.prod(bn - an))
     cond = max(max(abs(a[k]), abs(b[k])) / (b[k] - a[k]) for k in range(d))
 
+    def history(grid):
+        # the dimension-wise strategy calls set_grid on ONE grid object for every component grid: other trees come first
+        for _ in range(rng.choice([0, 0, 1, 2])):
+            hp, hl = [], []
+            for k in range(d):
+                if rng.random() < 0.5:
+                    P, L = [a[k] + b[k] - x for x in reversed(pts[k])], list(reversed(levs[k]))   # mirror image, same size
+                else:
+                    P, L = trees.gen_tree(rng, a[k], b[k], n_points=rng.choice([3, 5, 6, 9, 12]))
+                hp.append([float(x) for x in P])
+                hl.append([int(x) for x in L])
+            try:
+                grid.set_grid(hp, hl)
+                if rng.random() < 0.5:
+                    grid.integrate(hooks.VFunction([lambda q: 1.0 + q[0]]), [max(l) for l in hl], an, bn)
+                res.count("history_steps")
+            except AssertionError:
+                pass
+
     def integrate(grid, degs_list, lv=None):
         comps, exact = poly_components(degs_list, a, b)
         f = hooks.VFunction(comps)
@@ -82,6 +102,7 @@ def run_case(case, res):
         boundary = kind == "trap_b"
         modified = kind == "trap_mod"
         grid = G.GlobalTrapezoidalGrid(an, bn, boundary=boundary, modified_basis=modified)
+        history(grid)
         grid.set_grid(pts, levs)
         for k in range(d):
             w = np.asarray(grid.weights[k], dtype=float)
@@ -120,6 +141,7 @@ def run_case(case, res):
             grid = G.GlobalLagrangeGrid(an, bn, boundary=True, p=p)
         else:
             grid = G.GlobalBSplineGrid(an, bn, boundary=True, p=p)
+        history(grid)
         grid.set_grid(pts, levs)
         degs = [tuple([0] * d), tuple([1] * d)] + [tuple(rng.randint(0, 1) for _ in range(d)) for _ in range(2)]
         val, exact = integrate(grid, degs)
